@@ -60,3 +60,10 @@ CASES += [
     {"name": "dipole tolerance scales with the first power of the dipoles (the repaired defect)", "kind": "mutant", "rule": "C12-G", "edits": [
         (ASP, "        dip_tol = self.D2_max*dtol", "        dip_tol = numpy.sqrt(self.D2_max)*dtol", 3)]},
 ]
+
+CASES += [
+    {"name": "exciton widths read the eigenvector matrix transposed (the repaired defect)", "kind": "mutant", "rule": "C12-I", "edits": [
+        ("quantarhei/builders/aggregate_base.py", "                    Wd_a[ii] += (self.Wd[nn,nn]**2)*abs(SS[nn,ii])**4", "                    Wd_a[ii] += (self.Wd[nn,nn]**2)*abs(SS[ii,nn])**4", 1)]},
+    {"name": "exciton dephasings read the eigenvector matrix transposed", "kind": "mutant", "rule": "C12-I", "edits": [
+        ("quantarhei/builders/aggregate_base.py", "                    Dr_a[ii] += (self.Dr[nn,nn]**2)*abs(SS[nn,ii])**4", "                    Dr_a[ii] += (self.Dr[nn,nn]**2)*abs(SS[ii,nn])**4", 1)]},
+]
